@@ -49,6 +49,33 @@ Section WF.
   Definition wf_lt (scopes : list (list kind)) (l : ilt) : Prop :=
     match l with LVar v => var_ok scopes KLt v | _ => True end.
 
+  (** [dyn] inside the arguments of a [dyn] bound is rejected by the real lowering (both levels
+      bind the same hidden name), and lowering orders the bounds of a [dyn]: non-auto traits
+      first, then auto traits by id *)
+  Fixpoint has_dyn (t : ity) : bool :=
+    match t with
+    | TDyn _ _ => true
+    | TAdt _ args => existsb has_dyn_garg args
+    | TTuple ts => existsb has_dyn ts
+    | TRef _ _ t | TRaw _ t | TSlice t | TArray t _ => has_dyn t
+    | TFn _ _ _ args ret => existsb has_dyn args || has_dyn ret
+    | _ => false
+    end
+  with has_dyn_garg (a : igarg) : bool := match a with GTy t => has_dyn t | _ => false end.
+
+  Definition trait_auto (id : nat) : bool :=
+    match nth_error p id with Some (ITrait _ _ fl _) => fl.(tf_auto) | _ => false end.
+  Fixpoint dyn_sorted (last_auto : option nat) (trs : list nat) : bool :=
+    match trs with
+    | [] => true
+    | tr :: r =>
+        if trait_auto tr then
+          match last_auto with Some a => Nat.leb a tr | None => true end && dyn_sorted (Some tr) r
+        else match last_auto with Some _ => false | None => dyn_sorted None r end
+    end.
+  Definition dbound_trait (b : idbound) : nat := match b with DB _ tr _ => tr end.
+  Definition dbound_args (b : idbound) : list igarg := match b with DB _ _ args => args end.
+
   Fixpoint wf_ty (scopes : list (list kind)) (t : ity) {struct t} : Prop :=
     match t with
     | TVar v => tvar_ok scopes v
@@ -60,6 +87,11 @@ Section WF.
     | TRaw _ t | TSlice t => wf_ty scopes t
     | TArray t c => wf_ty scopes t /\ wf_konst scopes c
     | TStr | TNever => True
+    | TFn nb _ _ args ret => all (wf_ty (scopes ++ [repeat KLt nb])) args /\ wf_ty (scopes ++ [repeat KLt nb]) ret
+    | TDyn bounds l =>
+        all (wf_dbound (scopes ++ [[]])) bounds /\ wf_lt scopes l /\
+        dyn_sorted None (map dbound_trait bounds) = true /\
+        existsb (fun b => existsb has_dyn_garg (dbound_args b)) bounds = false
     end
   with wf_garg (scopes : list (list kind)) (a : igarg) {struct a} : Prop :=
     match a with
@@ -67,6 +99,12 @@ Section WF.
     | GLt l => wf_lt scopes l
     | GCVal _ => True
     | GCVar v => var_ok scopes KConst v
+    end
+  with wf_dbound (scopes : list (list kind)) (b : idbound) {struct b} : Prop :=
+    match b with
+    | DB ks tr args =>
+        (exists tks, trait_kinds tr = Some tks /\ map kclass tks = map garg_kind args) /\
+        all (wf_garg (scopes ++ [ks])) args
     end.
 
   Definition wf_trait_ref (scopes : list (list kind)) (tr : nat) (args : list igarg) : Prop :=
@@ -242,39 +280,44 @@ Section Types.
     | TTuple ts => S (list_sum (map isize_ty ts))
     | TRef _ _ t | TRaw _ t | TSlice t | TArray t _ => S (isize_ty t)
     | TStr | TNever => 1
+    | TFn _ _ _ args ret => S (list_sum (map isize_ty args) + isize_ty ret)
+    | TDyn bs _ => S (list_sum (map isize_dbound bs))
     end
-  with isize_garg (a : igarg) : nat := match a with GTy t => S (isize_ty t) | _ => 1 end.
+  with isize_garg (a : igarg) : nat := match a with GTy t => S (isize_ty t) | _ => 1 end
+  with isize_dbound (b : idbound) : nat := match b with DB _ _ args => S (list_sum (map isize_garg args)) end.
 
   Lemma in_list_sum A (f : A -> nat) x l : In x l -> f x <= list_sum (map f l).
   Proof. unfold list_sum. induction l; cbn; [tauto|]. intros [->|H]; [lia|]. apply IHl in H. lia. Qed.
 
   Lemma types_resolve n :
     (forall t scopes, isize_ty t <= n -> wf_ty p scopes t ->
-       r_ty structs in_trait scopes (u_ty names in_trait (length scopes) t) = Some t) /\
+       r_ty structs traits in_trait scopes (u_ty names in_trait (length scopes) t) = Some t) /\
     (forall a scopes, isize_garg a <= n -> wf_garg p scopes a ->
-       r_garg structs in_trait scopes (u_garg names in_trait (length scopes) a) = Some a).
+       r_garg structs traits in_trait scopes (u_garg names in_trait (length scopes) a) = Some a) /\
+    (forall b scopes, isize_dbound b <= n -> wf_dbound p scopes b ->
+       r_dbound structs traits in_trait scopes (u_dbound names in_trait (S (length scopes)) b) = Some b).
   Proof.
-    induction n as [|n [IHt IHa]].
-    { split; intros x sc H; destruct x; cbn in H; lia. }
+    induction n as [|n [IHt [IHa IHb]]].
+    { repeat split; intros x sc H; destruct x; cbn in H; lia. }
     assert (Hargs : forall args scopes, list_sum (map isize_garg args) <= n -> all (wf_garg p scopes) args ->
-               omap (r_garg structs in_trait scopes) (map (u_garg names in_trait (length scopes)) args) = Some args).
+               omap (r_garg structs traits in_trait scopes) (map (u_garg names in_trait (length scopes)) args) = Some args).
     { intros args scopes Hs Hw. apply omap_map_id. intros a Ha. apply IHa.
       - pose proof (in_list_sum _ isize_garg a args Ha). lia.
       - eapply all_In; eauto. }
-    split.
-    - intros t scopes Hs Hw. destruct t as [v|id args|s|ts|m l t|m t|t|t c| |]; cbn [isize_ty] in Hs; cbn [wf_ty] in Hw; cbn [u_ty r_ty].
+    repeat split.
+    - intros t scopes Hs Hw. destruct t as [v|id args|s|ts|m l t|m t|t|t c| | |nb u va fargs ret|bs l]; cbn [isize_ty] in Hs; cbn [wf_ty] in Hw; cbn [u_ty r_ty].
       + rewrite r_var_u_var by exact Hw. reflexivity.
       + destruct Hw as [[ks [Hk Hks]] Ha]. rewrite (find_struct id _ Hk). cbn [obind].
         change ((fix go (l : list agarg) : option (list igarg) :=
-                   match l with [] => Some [] | x :: r => ' y <- r_garg structs in_trait scopes x;; ' ys <- go r;; Some (y :: ys) end)
+                   match l with [] => Some [] | x :: r => ' y <- r_garg structs traits in_trait scopes x;; ' ys <- go r;; Some (y :: ys) end)
                   (map (u_garg names in_trait (length scopes)) args))
-          with (omap (r_garg structs in_trait scopes) (map (u_garg names in_trait (length scopes)) args)).
+          with (omap (r_garg structs traits in_trait scopes) (map (u_garg names in_trait (length scopes)) args)).
         rewrite Hargs; [|lia|exact Ha]. cbn [obind h_kinds h_id]. rewrite Hks, kinds_eqb_refl. reflexivity.
       + reflexivity.
       + change ((fix go (l : list aty) : option (list ity) :=
-                   match l with [] => Some [] | x :: r => ' y <- r_ty structs in_trait scopes x;; ' ys <- go r;; Some (y :: ys) end)
+                   match l with [] => Some [] | x :: r => ' y <- r_ty structs traits in_trait scopes x;; ' ys <- go r;; Some (y :: ys) end)
                   (map (u_ty names in_trait (length scopes)) ts))
-          with (omap (r_ty structs in_trait scopes) (map (u_ty names in_trait (length scopes)) ts)).
+          with (omap (r_ty structs traits in_trait scopes) (map (u_ty names in_trait (length scopes)) ts)).
         rewrite omap_map_id; [reflexivity|]. intros x Hx. apply IHt.
         * pose proof (in_list_sum _ isize_ty x ts Hx). lia.
         * eapply all_In; eauto.
@@ -285,11 +328,31 @@ Section Types.
       + destruct Hw as [Ht Hc]. rewrite IHt; [|lia|exact Ht]. cbn [obind]. rewrite r_konst_u_konst by exact Hc. reflexivity.
       + reflexivity.
       + reflexivity.
+      + destruct Hw as [Ha Hr].
+        assert (El : S (length scopes) = length (scopes ++ [repeat KLt nb])) by (rewrite app_length; cbn; lia).
+        rewrite El.
+        change ((fix go (l : list aty) : option (list ity) :=
+                   match l with [] => Some [] | x :: r => ' y <- r_ty structs traits in_trait (scopes ++ [repeat KLt nb]) x;; ' ys <- go r;; Some (y :: ys) end)
+                  (map (u_ty names in_trait (length (scopes ++ [repeat KLt nb]))) fargs))
+          with (omap (r_ty structs traits in_trait (scopes ++ [repeat KLt nb])) (map (u_ty names in_trait (length (scopes ++ [repeat KLt nb]))) fargs)).
+        rewrite omap_map_id.
+        * cbn [obind]. rewrite IHt; [reflexivity|lia|exact Hr].
+        * intros x Hx. apply IHt; [pose proof (in_list_sum _ isize_ty x fargs Hx); lia|eapply all_In; eauto].
+      + destruct Hw as [Hb [Hl _]].
+        assert (El : S (S (length scopes)) = S (length (scopes ++ [[]]))) by (rewrite app_length; cbn; lia).
+        rewrite El.
+        change ((fix go (l0 : list adbound) : option (list idbound) :=
+                   match l0 with [] => Some [] | x :: r => ' y <- r_dbound structs traits in_trait (scopes ++ [[]]) x;; ' ys <- go r;; Some (y :: ys) end)
+                  (map (u_dbound names in_trait (S (length (scopes ++ [[]])))) bs))
+          with (omap (r_dbound structs traits in_trait (scopes ++ [[]])) (map (u_dbound names in_trait (S (length (scopes ++ [[]])))) bs)).
+        rewrite omap_map_id.
+        * cbn [obind]. rewrite r_lt_u_lt by exact Hl. reflexivity.
+        * intros x Hx. apply IHb; [pose proof (in_list_sum _ isize_dbound x bs Hx); lia|eapply all_In; eauto].
     - intros a scopes Hs Hw. destruct a as [t|l|nn|v]; cbn [isize_garg] in Hs.
       + change (wf_ty p scopes t) in Hw.
         change (match bare_const scopes (u_ty names in_trait (length scopes) t) with
                 | Some v => Some (GCVar v : igarg)
-                | None => ' t' <- r_ty structs in_trait scopes (u_ty names in_trait (length scopes) t);; Some (GTy t' : igarg)
+                | None => ' t' <- r_ty structs traits in_trait scopes (u_ty names in_trait (length scopes) t);; Some (GTy t' : igarg)
                 end = Some (GTy t)).
         rewrite (bare_const_u_ty in_trait names p scopes t Hw). rewrite IHt; [reflexivity|lia|exact Hw].
       + change (wf_lt scopes l) in Hw.
@@ -299,20 +362,29 @@ Section Types.
       + change (var_ok scopes KConst v) in Hw.
         change (match bare_const scopes (TVar (AV (length scopes - fst v) (snd v))) with
                 | Some v' => Some (GCVar v' : igarg)
-                | None => ' t' <- r_ty structs in_trait scopes (TVar (AV (length scopes - fst v) (snd v)));; Some (GTy t' : igarg)
+                | None => ' t' <- r_ty structs traits in_trait scopes (TVar (AV (length scopes - fst v) (snd v)));; Some (GTy t' : igarg)
                 end = Some (GCVar v)).
         destruct v as [d i]. unfold var_ok in Hw. cbn [fst snd] in *. destruct Hw as [Hd Hk].
         cbn [bare_const]. rewrite Hk. f_equal. f_equal. f_equal. lia.
+    - intros b scopes Hs Hw. destruct b as [ks tr args]. cbn [isize_dbound] in Hs.
+      change ((exists tks, trait_kinds p tr = Some tks /\ map kclass tks = map garg_kind args) /\ all (wf_garg p (scopes ++ [ks])) args) in Hw.
+      destruct Hw as [[tks [Hk Hks]] Ha].
+      assert (El : S (length scopes) = length (scopes ++ [ks])) by (rewrite app_length; cbn; lia).
+      change (' h <- find_header (name_of names tr) traits;;
+              ' args' <- omap (r_garg structs traits in_trait (scopes ++ [ks])) (map (u_garg names in_trait (S (length scopes))) args);;
+              (if kinds_eqb (map kclass (h_kinds h)) (map garg_kind args') then Some (DB ks (h_id h) args' : idbound) else None) = Some (DB ks tr args)).
+      rewrite (find_trait tr _ Hk). cbn [obind]. rewrite El. rewrite Hargs; [|lia|exact Ha].
+      cbn [obind h_kinds h_id]. rewrite Hks, kinds_eqb_refl. reflexivity.
   Qed.
 
-  Lemma r_ty_u_ty scopes t : wf_ty p scopes t -> r_ty structs in_trait scopes (u_ty names in_trait (length scopes) t) = Some t.
+  Lemma r_ty_u_ty scopes t : wf_ty p scopes t -> r_ty structs traits in_trait scopes (u_ty names in_trait (length scopes) t) = Some t.
   Proof. apply (proj1 (types_resolve (isize_ty t))). lia. Qed.
 
   Lemma r_gargs_u scopes args :
     all (wf_garg p scopes) args ->
-    omap (r_garg structs in_trait scopes) (map (u_garg names in_trait (length scopes)) args) = Some args.
+    omap (r_garg structs traits in_trait scopes) (map (u_garg names in_trait (length scopes)) args) = Some args.
   Proof.
-    intros H. apply omap_map_id. intros a Ha. apply (proj2 (types_resolve (isize_garg a))); [lia|].
+    intros H. apply omap_map_id. intros a Ha. apply (proj1 (proj2 (types_resolve (isize_garg a)))); [lia|].
     eapply all_In; eauto.
   Qed.
 
@@ -355,11 +427,11 @@ Lemma r_item_u_item p it :
 Proof.
   intros Hn Hw. destruct it as [name ps fl fs wcs|name ps fl vs wcs|name ps fl wcs|ps up pos tr args self wcs]; cbn [wf_item u_item r_item] in *.
   - destruct Hw as [Hf Hq].
-    rewrite (omap_map_id _ _ (r_ty (iheaders true 0 p) false [ps]) (u_ty (map item_name p) false 1) fs).
+    rewrite (omap_map_id _ _ (r_ty (iheaders true 0 p) (iheaders false 0 p) false [ps]) (u_ty (map item_name p) false 1) fs).
     + cbn [obind]. rwl (r_qwcs_u p Hn false [ps] wcs Hq). reflexivity.
     + intros t Ht. apply (r_ty_u_ty p Hn false [ps] t). eapply all_In; eauto.
   - destruct Hw as [Hv Hq].
-    rewrite (omap_map_id _ _ (omap (r_ty (iheaders true 0 p) false [ps])) (map (u_ty (map item_name p) false 1)) vs).
+    rewrite (omap_map_id _ _ (omap (r_ty (iheaders true 0 p) (iheaders false 0 p) false [ps])) (map (u_ty (map item_name p) false 1)) vs).
     + cbn [obind]. rwl (r_qwcs_u p Hn false [ps] wcs Hq). reflexivity.
     + intros fs Hfs. apply omap_map_id. intros t Ht. apply (r_ty_u_ty p Hn false [ps] t).
       eapply all_In; [|exact Ht]. eapply all_In; eauto.
